@@ -16,6 +16,11 @@ With ``case["sqlite"] = {"old": history|None, "new": history|None}`` a side is b
 ``DataIndex.open(<sqlite file>)`` and driven through the edit history (``["set", key, meta, hash, isdir]``,
 ``["del", key]``, ``["pop", key]``, ``["commit"]``) whose final content is the side's spec.
 
+With ``case["views"] = {"old": vspec|None, "new": vspec|None}`` a side is handed to ``diff()`` as
+``dvc_data.index.view(<index built from the spec>, filter_fn)`` (a ``DataIndexView``), where
+``vspec = {"keep": [key, ...], "root": bool}`` describes the prefix-closed filter "key is a non-empty
+ancestor of, equal to, or below one of the kept keys" and ``root`` is what the filter answers for ``()``.
+
 The oracle is a flat dictionary diff (no descent, no listing) following DESIGN.md 4/C08 (a)-(f).
 """
 
@@ -59,6 +64,15 @@ RULE = (
     "and deleted/popped while their children remain, leaves written and deleted, delete + re-add, "
     "optional commits); the reference is computed from the final content, all oracles run through the "
     "live handle(s), and the diff of the committed, closed and re-opened file(s) must equal the live one. "
+    "A view arm (all modes / options / roots / entry sharing as in the plain arms) hands one or both sides "
+    "to diff() as DataIndexView = index.view(filter_fn) over the drawn, larger index: the filter keeps 1-3 "
+    "drawn keys (files, explicit or implicit directories at any depth, mostly a whole top-level sub-tree, a "
+    "key present nowhere) with their non-empty ancestors and everything below them - the shape of DVC's "
+    "target filters - and answers False (mostly) or True for the empty key (); both sides mostly share the "
+    "filter, sometimes only one side is a view or the filters differ. The reference is the same key-by-key "
+    "table over the keys the filter keeps (a view always contains its root: with no entry at () the diff "
+    "starts at the implicit root directory whatever filter_fn(()) says); self-diffs go through the view "
+    "and through a view of an independently built copy. "
     "Oracle: flat key-by-key reference "
     "diff over the two key->entry dictionaries (under shallow, keys outside hashed sub-trees stay exact; "
     "a key strictly below a hashed entry may be seen or not seen on that side - any of those outcomes "
@@ -98,6 +112,14 @@ ASSUMPTIONS = [
     "re-use under different keys is covered for the Meta / HashInfo sub-objects instead. Sharing is not "
     "generated in the storage arm (loading flips entry.loaded on the shared object) nor in the SQLite arm",
     "hash_only and meta_only are not combined; with_renames is not combined with meta_only (assert in diff())",
+    "view arm: filters are prefix-closed over non-empty keys (a kept key implies its non-empty ancestors are "
+    "kept: DataIndexView.ls/traverse never descend below a rejected key, so other filters have no key-by-key "
+    "reading); filter_fn(()) may be False, the root is inside every view (__getitem__/traverse special-case "
+    "it) - but an explicit entry at () is only generated under a filter that accepts () (iteritems never "
+    "yields it, __getitem__ always returns it: unspecified); a kept directory entry's derived .dir hash is a "
+    "function of the files the view shows below it (with one filter on both sides this is implied by the "
+    "hash being a function of all files below it); views are drawn over plain in-memory indexes only (not "
+    "in the storage / SQLite arms)",
 ]
 
 ADD, MODIFY, RENAME, DELETE, UNCHANGED = "add", "modify", "rename", "delete", "unchanged"
@@ -466,8 +488,55 @@ def _roots(draw, a, b):
     return [list(r) for r in picked]
 
 
+_viewsides = st.sampled_from(["both", "both", "old", "new", "both", "diff"])
+_ntwo = st.sampled_from([2, 1, 3, 1, 2])
+
+
+def _views(draw, a, b):
+    """Which side(s) are handed to diff() as a DataIndexView over the drawn (larger) index, and the
+    filter: 1-3 kept keys drawn from the nodes of both sides (files, explicit and implicit directories,
+    at any depth) plus a key present nowhere; the filter keeps their non-empty ancestors, the keys
+    themselves and everything below them (what DVC's target filters look like), and answers False
+    (mostly - as DVC's and the library's own test filters do) or True for the empty key.  Both sides
+    mostly get the same filter; sometimes only one side is a view or the filters differ."""
+    keys = {tuple(e[0]) for spec in (a, b) if spec for e in spec}
+    cands = sorted({k[:i] for k in keys for i in range(1, len(k) + 1)} | {("zz",)})
+
+    tops = [k for k in cands if len(k) == 1]
+
+    def one(spec):
+        keep = []
+        for i in range(draw(_ntwo)):
+            # the first kept key is mostly a top-level one (a whole sub-tree stays in the view)
+            k = _pick(draw, tops if i == 0 and draw(_hashed) else cands)
+            if k not in keep:
+                keep.append(k)
+        # an explicit entry at () is only generated under a filter that keeps ()
+        root = draw(_isdir_sub) or any(not e[0] for e in spec)
+        return {"keep": [list(k) for k in keep], "root": bool(root)}
+
+    which = draw(_viewsides)
+    out = {"old": None, "new": None}
+    if which in ("both", "diff") and a is not None and b is not None:
+        out["old"] = one(a)
+        if which == "diff":
+            out["new"] = one(b)
+        else:
+            out["new"] = {"keep": [list(k) for k in out["old"]["keep"]],
+                          "root": bool(out["old"]["root"] or any(not e[0] for e in b))}
+            out["old"]["root"] = out["new"]["root"] = bool(out["old"]["root"] or out["new"]["root"])
+    else:
+        side = which if which in ("old", "new") else "new"
+        spec = a if side == "old" else b
+        if spec is None:
+            side, spec = ("new", b) if side == "old" else ("old", a)
+        if spec is not None:
+            out[side] = one(spec)
+    return out if out["old"] or out["new"] else None
+
+
 @st.composite
-def cases(draw, mode=None, renames=None, storage=False, sqlite=False):
+def cases(draw, mode=None, renames=None, storage=False, sqlite=False, views=False):
     # the rename arm draws hashes from three values and moves files more often, so that several
     # deleted and added keys carry the same hash
     hs = _hashes_ren if renames else _hashes
@@ -524,6 +593,10 @@ def cases(draw, mode=None, renames=None, storage=False, sqlite=False):
             if kind in (3, 4):
                 share["intern"] = True
             case["share"] = share
+    if views and not storage and not sqlite:
+        vws = _views(draw, a, b)
+        if vws:
+            case["views"] = vws
     if sqlite:
         # either side may be an SQLite-backed index (DataIndex.open) that reaches its content through
         # an edit history in one session; at least one side is
@@ -859,6 +932,23 @@ def build_sqlite(spec, history, path):
     return idx
 
 
+def view_filter(vs):
+    """filter_fn of a view spec: prefix-closed over non-empty keys (a kept key, its non-empty
+    ancestors, everything below it); vs["root"] is the answer for the empty key."""
+    keep = [tuple(k) for k in vs["keep"]]
+    root = bool(vs["root"])
+    if any(not k for k in keep):
+        raise HarnessError(f"view spec keeps the empty key: {vs}")
+
+    def keeps(key):
+        key = tuple(key)
+        if not key:
+            return root
+        return any(k[:len(key)] == key or key[:len(k)] == k for k in keep)
+
+    return keeps
+
+
 def make_cmp_key(cmpkey):
     """The meta_cmp_key callable for a case; None-safe like the ones callers pass (index checkout)."""
     if not cmpkey:
@@ -1070,8 +1160,28 @@ def _run(case, odb, sqdir=None, handles=None):  # noqa: C901, PLR0912, PLR0915
     for side in ("old", "new"):
         if case[side] is not None:
             check_spec(case[side], storage=odb is not None)
-    fo = None if case["old"] is None else resolve(case["old"])
-    fn = None if case["new"] is None else resolve(case["new"])
+    # views: a side handed to diff() as view(index, filter_fn).  bspec = what the underlying index is
+    # built from (the whole spec), rspec = what the diff is specified to see (the keys the filter keeps)
+    vws = {s_: v for s_, v in (case.get("views") or {}).items() if v is not None}
+    if vws and (odb is not None or case.get("sqlite")):
+        raise HarnessError("views are only generated over plain in-memory indexes")
+    bspec = {"old": case["old"], "new": case["new"]}
+    rspec = dict(bspec)
+    filters = {}
+    for side, vs in sorted(vws.items()):
+        if case[side] is None:
+            raise HarnessError(f"view over the absent {side} index")
+        keeps = filters[side] = view_filter(vs)
+        if not keeps(()) and any(not e[0] for e in case[side]):
+            raise HarnessError("an explicit entry at () under a filter that rejects () is outside the domain")
+        rspec[side] = [e for e in case[side] if keeps(tuple(e[0]))]
+        # a kept directory's derived hash is a function of the files the view shows below it
+        bspec[side] = [
+            [e[0], e[1], derived_hash(rspec[side], tuple(e[0])) if e[2] == "D" and keeps(tuple(e[0])) else e[2], e[3]]
+            for e in case[side]
+        ]
+    fo = None if rspec["old"] is None else resolve(rspec["old"])
+    fn = None if rspec["new"] is None else resolve(rspec["new"])
     # ov / nv: unpruned views (entry data by key); pv_o / pv_n: what a shallow diff looks at
     ov, nv = view(fo, False), view(fn, False)
     pv_o, pv_n = view(fo, opts["shallow"]), view(fn, opts["shallow"])
@@ -1117,9 +1227,17 @@ def _run(case, odb, sqdir=None, handles=None):  # noqa: C901, PLR0912, PLR0915
                     and (sel == "all" or (sel == "dirs" and e["isdir"]) or (picked is not None and k in picked))
                 }
                 shared_keys = set(donors)
-            built[side] = build_index(case[side], odb, stsq, handles, donors=donors,
+            built[side] = build_index(bspec[side], odb, stsq, handles, donors=donors,
                                       made=made_old if side == "old" else None, intern=intern)
-    old, new = built["old"], built["new"]
+
+    def wrap(side, idx):
+        if side not in filters or idx is None:
+            return idx
+        from dvc_data.index import view as index_view
+
+        return index_view(idx, filters[side])
+
+    old, new = wrap("old", built["old"]), wrap("new", built["new"])
     viols = []
     counters = {}
 
@@ -1143,11 +1261,11 @@ def _run(case, odb, sqdir=None, handles=None):  # noqa: C901, PLR0912, PLR0915
                           f"diff(b, a) is not the mirror of diff(a, b): expected {only_fwd}, got {only_rev}"))
 
     # -- (c) an index diffed with itself shows no change --------------------------------------
-    for name, idx, spec, vw, fullv in (("old", old, case["old"], pv_o, ov), ("new", new, case["new"], pv_n, nv)):
+    for name, idx, spec, vw, fullv in (("old", old, bspec["old"], pv_o, ov), ("new", new, bspec["new"], pv_n, nv)):
         if idx is None:
             continue
         copy_path = os.path.join(sqdir, name + "-copy.db") if odb is not None and sqdir else None
-        for other in (idx, build_index(spec, odb, copy_path, handles)):
+        for other in (idx, wrap(name, build_index(spec, odb, copy_path, handles))):
             splain, sren, sbad = flat(real_diff(idx, other, opts))
             changed = [x for x in splain if x[0] != UNCHANGED]
             if changed or sren or sbad:
@@ -1307,6 +1425,29 @@ def _run(case, odb, sqdir=None, handles=None):  # noqa: C901, PLR0912, PLR0915
                     len(x) > len(k) and x[:len(k)] == k and ov.get(x) != nv.get(x) for x in both)
                    for k in shared_keys):
                 classes.append("derive:shared-dir-entry-with-change-below")
+    if vws:
+        classes.append("view")
+        classes.append("view:both-sides" if len(vws) == 2 else "view:one-side")
+        if len(vws) == 2 and vws["old"] != vws["new"]:
+            classes.append("view:different-filters")
+        vcls = set()
+        for side in sorted(vws):
+            full = {tuple(e[0]) for e in case[side]}
+            kept = {tuple(e[0]) for e in rspec[side]}
+            if kept and kept != full:
+                vcls.add("view:keeps-some-drops-some")
+            if not vws[side]["root"]:
+                vcls.add("view:filter-rejects-()")
+                if kept:
+                    vcls.add("view:filter-rejects-()+keys-kept")
+            else:
+                vcls.add("view:filter-accepts-()")
+            if any(e[3] and tuple(e[0]) in kept and any(len(k) > len(e[0]) and k[:len(e[0])] == tuple(e[0]) for k in full - kept)
+                   for e in case[side]):
+                vcls.add("view:kept-dir-entry-partly-filtered")
+        classes += sorted(vcls)
+        if nontrivial:
+            classes.append("view:nontrivial")
     if roots is not None:
         classes.append("roots")
         if len(roots) >= 2:
@@ -1401,6 +1542,7 @@ ARMS = [
     ("hash", None, False),
     ("meta", False, False),
     (None, True, False),
+    (None, None, "view"),   # one or both sides handed to diff() as DataIndexView over a larger index
 ]
 
 
@@ -1419,10 +1561,13 @@ def run(ctx):
                 n = per
                 if storage == "sqlite":
                     n = ctx.n(quick=60, thorough=1500)
+                elif storage == "view":
+                    n = per // 2
                 elif storage:
                     n = per // 3
                 n = max(1, n // rounds)
-                strat = cases(mode=mode, renames=renames, storage=storage is True, sqlite=storage == "sqlite")
+                strat = cases(mode=mode, renames=renames, storage=storage is True, sqlite=storage == "sqlite",
+                              views=storage == "view")
                 if not ctx.run_given(strat, run_case, n):
                     return
     finally:
